@@ -269,7 +269,9 @@ func (s *Service) builderBidAttempt(ctx context.Context,
 		firstBid = builderBid
 	}
 
-	if lastBid == nil || bidBetter(lastBid, builderBid) {
+	// Pass on the bid if it has a higher value than the relay's last bid, or is for a different payload.  The latter
+	// may have a lower value but, once the builder's offset and factor are applied, a higher score.
+	if lastBid == nil || bidBetter(lastBid, builderBid) || !bidsEqual(lastBid, builderBid) {
 		lastBid = builderBid
 		respCh <- &builderBidResponse{
 			bid:      builderBid,
